@@ -12,27 +12,27 @@ CHECKS = {
         design="DESIGN.md §4 C02"),
     "C17": dict(
         technique="runtime monitor: generating-model oracle over grammar-generated config documents, fault injection with an error-or-complete oracle, hostile bytes under recover()",
-        text="Documents are generated from the config grammar together with their model; the real parser's every getter (GetString/GetMap/GetDomain/GetDomainKey/GetDomainLine and the typed getters) is compared with the model. Nine kinds of syntax fault are injected into valid documents and the oracle accepts an error or a complete parse only. Random and mutated bytes must not panic parser or getters. Lines may be glued to tags without a line break, entries may stand at the top level, and the root's listings are compared. After the comparison a caller-side edit of every listing handed out must not change later answers; zero-padded decimals, base-prefixed integers, lines of 1 MiB and more, and non-blank white space at the edges of keys and values are part of the generated documents.",
+        text="Documents are generated from the config grammar together with their model; the real parser's every getter (GetString/GetMap/GetDomain/GetDomainKey/GetDomainLine and the typed getters) is compared with the model. Nine kinds of syntax fault are injected into valid documents and the oracle accepts an error or a complete parse only. Random and mutated bytes must not panic parser or getters. Lines may be glued to tags without a line break, entries may stand at the top level, and the root's listings are compared. After the comparison a caller-side edit of every listing handed out must not change later answers; zero-padded decimals, base-prefixed integers, lines of 1 MiB and more, and non-blank white space at the edges of keys and values are part of the generated documents. XML declarations in front of the document are a fault kind; a sub-domain asked for as a key answers with the default.",
         note="Trusts the generator's statement of the grammar (trim set ' \\n\\t', first '=' splits, '#' comments, later duplicates win). A key and a sub-domain of one name, keys containing '/', '<', '>' and XML entities/CDATA/']]>' are outside the judged grammar.",
         design="DESIGN.md §4 C17"),
     "C18": dict(
         technique="runtime monitor: model-equality oracle over rendered endpoint strings (all option orders/spacings), registry round trip, real proxy constructor for address lists, hostile strings under recover()",
-        text="Endpoints drawn from a model are rendered in every option permutation (<=5 options) and 48 spacing/flag-form styles, parsed by the real Parse and compared field by field (defaults, weight normalisation, key); the registry route is compared with the model and with the direct route's cache key; address lists (incl. trailing ':') go through the real NewServantProxy; every string of length 0..4 over a 9-symbol alphabet plus seeded random strings must not panic.",
+        text="Endpoints drawn from a model are rendered in every option permutation (<=5 options) and 48 spacing/flag-form styles, parsed by the real Parse and compared field by field (defaults, weight normalisation, key); the registry route is compared with the model and with the direct route's cache key; address lists (incl. trailing ':') go through the real NewServantProxy; every string of length 0..4 over a 9-symbol alphabet plus seeded random strings must not panic. The separator also stands in front of the protocol (96 styles).",
         note="Trusts the model's statement of defaults (timeout 3000, weight -1, weight normalisation). Numeric option values are plain decimals; IPv6 literals are excluded from ':'-separated lists.",
         design="DESIGN.md §4 C18"),
     "C19": dict(
         technique="runtime monitor: logical-clock stamps and gauge on gate-controlled jobs of the real pool, race detector (-race) on gpool state",
-        text="Jobs on the real gpool.Pool stamp start/end on a logical clock and keep a running gauge; oracles: per-job execution count, gauge <= workers at every start, workers+1+queue gated submissions complete without a gate opening, Release returns for an idle pool / only after running jobs ended / nothing starts afterwards, no goroutine left after Release; 48 configurations x 4 scenarios; race reports touching gpool are violations. The transport burst also judges the number of handlers waiting at the gate against MaxInvoke. Queue capacities beyond 65536 are part of the capacity scenario.",
+        text="Jobs on the real gpool.Pool stamp start/end on a logical clock and keep a running gauge; oracles: per-job execution count, gauge <= workers at every start, workers+1+queue gated submissions complete without a gate opening, Release returns for an idle pool / only after running jobs ended / nothing starts afterwards, no goroutine left after Release; 48 configurations x 4 scenarios; race reports touching gpool are violations. The transport burst also judges the number of handlers waiting at the gate against MaxInvoke. Queue capacities beyond 65536 are part of the capacity scenario. Release right after NewPool must stop every worker.",
         note="Only the interleavings the scheduler and the gates produced. 'Stops all workers' is observed through runtime.NumGoroutine at quiescence. Blocking steps are bounded by a 30 s watchdog.",
         design="DESIGN.md §4 C19"),
     "C20": dict(
         technique="runtime monitor: recording LogWriter + token join over forced (yield-point hook) and natural interleavings, child processes for aged-process flush and panic exit, race detector on rogger",
-        text="A recording writer observes what the real flusher hands over; entries logged before the flush request must be written exactly once, undivided, per-goroutine in order when FlushLogger returns. The losing interleaving named in the property is forced deterministically through the verif yield point between the flusher's two selects and also reached naturally; queue occupancies 0/1/100/9999 and over-capacity bursts are produced with a gated writer; child processes (no hook involved) decide the flush of a >1 s old process and the panic-triggered exit for four panic value kinds. One panic child runs with argv[0] in a directory where the stack dump cannot be created.",
+        text="A recording writer observes what the real flusher hands over; entries logged before the flush request must be written exactly once, undivided, per-goroutine in order when FlushLogger returns. The losing interleaving named in the property is forced deterministically through the verif yield point between the flusher's two selects and also reached naturally; queue occupancies 0/1/100/9999 and over-capacity bursts are produced with a gated writer; child processes (no hook involved) decide the flush of a >1 s old process and the panic-triggered exit for four panic value kinds. One panic child runs with argv[0] in a directory where the stack dump cannot be created. A child whose tars.Run panics during initialisation must still have its earlier entries written.",
         note="In-process trials re-arm the one-shot flush through the verif hook VerifResetFlush, which re-creates the flush contexts; properties of their initial construction are therefore decided by the child-process trials only. A flush taking >= the 1 s flush timeout is inconclusive.",
         design="DESIGN.md §4 C20"),
     "C13": dict(
         technique="runtime monitor: reference member-list model over sequential histories, exact rotation/weighted-cycle counting, porcupine linearizability check of recorded concurrent histories, race detector on selector state, child processes with write-ahead case log",
-        text="Every selector (roundrobin, random, modhash, consistent hash Ketama/default; weighted and not) runs seeded Refresh/Add/Remove/Select histories against an ordered-member model (non-member, wrong error, panic = violation); round-robin rotation and the weighted-cycle formula are counted exactly over full cycles, also with 4..16 concurrent selecting goroutines; concurrent histories with updaters are recorded at the call boundary and checked with porcupine against the membership model; race reports with an accessing frame in tars/selector are violations; a crash or CPU-burning hang of the child is attributed to the last announced case. Sequential histories also run over host pools containing hosts that share a Ketama ring point.",
+        text="Every selector (roundrobin, random, modhash, consistent hash Ketama/default; weighted and not) runs seeded Refresh/Add/Remove/Select histories against an ordered-member model (non-member, wrong error, panic = violation); round-robin rotation and the weighted-cycle formula are counted exactly over full cycles, also with 4..16 concurrent selecting goroutines; concurrent histories with updaters are recorded at the call boundary and checked with porcupine against the membership model; race reports with an accessing frame in tars/selector are violations; a crash or CPU-burning hang of the child is attributed to the last announced case. Sequential histories also run over host pools containing hosts that share a Ketama ring point. Four goroutines adding the same endpoint at once: exactly one Add succeeds and a Remove takes it out for good.",
         note="Weighted-cycle formula judged for all-positive static weights only. Members are removed by their stored endpoint value (as the endpoint manager does). Weights for weighted consistent hashing are capped at 2000 (ring size is linear in the weight by design). Manager-level selection is covered under C14/C15.",
         design="DESIGN.md §4 C13"),
     "C14": dict(
@@ -47,27 +47,27 @@ CHECKS = {
         design="DESIGN.md §4 C03"),
     "C04": dict(
         technique="runtime monitor: differential decoding (with vs. without spliced unknown fields) of reference encodings by the real generated decoders, reader-offset/sentinel probe, default/reuse/required oracles",
-        text="Reference encodings of values of every struct type are re-encoded with well-formed unknown fields (25 kinds: every wire type, nesting 6, mixed-width lists, head-like simple-list content, extended tags) at every position tag order allows incl. nested structs, list elements and map values; the generated decoder must succeed with the identical value and ReadBlock must end exactly behind the StructEnd; dropped optional members must decode to the IDL default in fresh and reused targets; each dropped required member must be an error; EvoOld/EvoNew are decoded across versions. Optional members are also left off the wire at every nesting level at once (nested structs, struct elements of vectors, struct values of maps). JSON-version requests with omitted members of struct parameters go through the generated dispatcher: members present plus IDL defaults must reach the implementation.",
+        text="Reference encodings of values of every struct type are re-encoded with well-formed unknown fields (25 kinds: every wire type, nesting 6, mixed-width lists, head-like simple-list content, extended tags) at every position tag order allows incl. nested structs, list elements and map values; the generated decoder must succeed with the identical value and ReadBlock must end exactly behind the StructEnd; dropped optional members must decode to the IDL default in fresh and reused targets; each dropped required member must be an error; EvoOld/EvoNew are decoded across versions. Optional members are also left off the wire at every nesting level at once (nested structs, struct elements of vectors, struct values of maps). JSON-version requests with omitted members of struct parameters go through the generated dispatcher: members present plus IDL defaults must reach the implementation. Unknown fields nested 900 and 1200 containers deep and lists of mixed element widths are among the spliced kinds.",
         note="Encodings come from the reference encoder. Quick tier samples 4 extra kinds per insertion point, thorough all 25.",
         design="DESIGN.md §4 C04"),
     "C06": dict(
         technique="runtime monitor: strict reference parser as oracle over exhaustively enumerated damages (prefixes, length inflations, inadmissible wire types) of reference encodings, real decoders in child processes with write-ahead case log",
-        text="From reference encodings of values of every generated struct type: every proper prefix, every embedded length inflated, every member / nested member / first element / first map value replaced by each inadmissible wire type; the real generated decoder may fail, or succeed only with exactly the value of the complete fields as determined by the independent strict parser (missing members optional and at default); for type substitutions only failure is accepted. TUP attribute sets and single primitive fields likewise. Children carry an address-space limit and a write-ahead log so that one fatal input does not end the monitor. The result buffer of a response, cut at every prefix and with every embedded length inflated, goes through the generated proxy: the call must end with an error.",
+        text="From reference encodings of values of every generated struct type: every proper prefix, every embedded length inflated, every member / nested member / first element / first map value replaced by each inadmissible wire type; the real generated decoder may fail, or succeed only with exactly the value of the complete fields as determined by the independent strict parser (missing members optional and at default); for type substitutions only failure is accepted. TUP attribute sets and single primitive fields likewise. Children carry an address-space limit and a write-ahead log so that one fatal input does not end the monitor. The result buffer of a response, cut at every prefix and with every embedded length inflated, goes through the generated proxy: the call must end with an error. Lengths with the sign bit set (-1, -2^31 as 4-byte fields) are among the inflations.",
         note="Damage kinds are enumerated exhaustively per encoding; encodings are sampled (4 values per type quick, 40 thorough). Panics / over-allocation caused by damaged input are counted here and judged under C05.",
         design="DESIGN.md §4 C06"),
     "C05": dict(
         technique="runtime monitor: process-level crash/allocation/CPU watchers over hostile inputs in child processes (address-space limit, write-ahead case log), recover()-based panic capture inside the child",
-        text="Structure-aware hostile inputs (every embedded length set to -1/-2^31/2^31-1/remaining+1/2^24, every head's wire type swapped, truncations, list counts beyond fixed arrays, nesting bombs of StructBegin/LIST/MAP/mixed up to the 10 MiB maximum packet, random bytes, hostile TUP sets, 0..4-byte frames) are fed to ReadFrom/ReadBlock of every generated struct, UniAttribute.Decode, ResponseUnpack, Protocol.Invoke and InvokeTimeout. A recovered panic, allocation beyond 4096*len+1MiB, CPU beyond 5s/MiB+5s, or the death/hang of the child (attributed to the input logged ahead) is a violation. Unknown (skipped) fields announce hostile lengths, including negative ones that would move the reader back onto the field's own head; a decode that does not return is decided on CPU time per case inside the child. Hostile argument buffers go through the generated dispatcher (TARS, TUP and JSON versions) under the real Protocol.Invoke and hostile result buffers through the generated proxy.",
+        text="Structure-aware hostile inputs (every embedded length set to -1/-2^31/2^31-1/remaining+1/2^24, every head's wire type swapped, truncations, list counts beyond fixed arrays, nesting bombs of StructBegin/LIST/MAP/mixed up to the 10 MiB maximum packet, random bytes, hostile TUP sets, 0..4-byte frames) are fed to ReadFrom/ReadBlock of every generated struct, UniAttribute.Decode, ResponseUnpack, Protocol.Invoke and InvokeTimeout. A recovered panic, allocation beyond 4096*len+1MiB, CPU beyond 5s/MiB+5s, or the death/hang of the child (attributed to the input logged ahead) is a violation. Unknown (skipped) fields announce hostile lengths, including negative ones that would move the reader back onto the field's own head; a decode that does not return is decided on CPU time per case inside the child. Hostile argument buffers go through the generated dispatcher (TARS, TUP and JSON versions) under the real Protocol.Invoke and hostile result buffers through the generated proxy. A real client process is answered with damaged responses addressed to its pending calls, and a real application receives hostile admin commands; neither process may end.",
         note="Not a coverage-guided fuzzer; reach comes from mutating encodings of every schema. A clean run is 'no crash on K inputs', not memory safety. The live client receive goroutine (AdapterProxy.Recv) is exercised by the RPC checks, not here.",
         design="DESIGN.md §4 C05"),
     "C07": dict(
         technique="runtime monitor: recording protocol objects on the real server/client receive loops, scripted peer with explicit stream partitions, sequence-equality oracle",
-        text="Recording ServerProtocol/ClientProtocol objects sit on the real transport.TarsServer and transport.TarsClient loops and record the framing layer's output in order plus every buffer length shown (the read partitions that really occurred); a scripted peer sends packet sequences (1..200 packets, sizes around every boundary incl. max-1 and max) split as single bytes, inside the 4-byte prefix, at packet boundaries +-1, coalesced, randomly, with different pacing, for max-length settings 64/4096/1MiB/10MiB and pool 0/1. Recorded sequence must equal the sent sequence byte for byte and the handler copies must be a permutation; illegal prefixes (0,1,3,max+1,2^31,2^32-1) must close that connection only after the earlier packets were delivered, with a bystander connection unaffected; on the client a broken connection must be followed by a correctly framed new one. A complete packet one byte longer than a small maximum is written in one piece, alone and coalesced behind good packets.",
+        text="Recording ServerProtocol/ClientProtocol objects sit on the real transport.TarsServer and transport.TarsClient loops and record the framing layer's output in order plus every buffer length shown (the read partitions that really occurred); a scripted peer sends packet sequences (1..200 packets, sizes around every boundary incl. max-1 and max) split as single bytes, inside the 4-byte prefix, at packet boundaries +-1, coalesced, randomly, with different pacing, for max-length settings 64/4096/1MiB/10MiB and pool 0/1. Recorded sequence must equal the sent sequence byte for byte and the handler copies must be a permutation; illegal prefixes (0,1,3,max+1,2^31,2^32-1) must close that connection only after the earlier packets were delivered, with a bystander connection unaffected; on the client a broken connection must be followed by a correctly framed new one. A complete packet one byte longer than a small maximum is written in one piece, alone and coalesced behind good packets. TLS 1.2 / 1.3 peers write packets and close cleanly in one piece (data and close_notify in one read); a protocol error must close a connection that carried one-way requests; with a server read timeout, packets arriving with a longer pause inside them are still framed.",
         note="Kernel coalescing decides the receiver's read boundaries; the evidence reports the observed buffer-length sequences. MaxPackageLength is process-global, so settings run one after another.",
         design="DESIGN.md §4 C07"),
     "C12": dict(
         technique="runtime monitor: gate-controlled recording ServerProtocol on the real TarsServer, raw pipelining clients, logical-clock stamps, response/notice/return-time oracles",
-        text="A real transport.TarsServer runs a monitor-owned protocol that stamps each request when the framing layer has read it, blocks every handler on a gate and marks one-way requests; raw clients pipeline requests over 1..32 connections so that running, pool-queued and framed-not-started requests exist at the Shutdown call by construction; gate scripts (at once after 0 / 1.3 s, one by one, after the close notice, some never) and clients reset while their requests execute. Every request read before the Shutdown call whose gate opened must be answered exactly once before EOF (one-way: executed, not answered), every live connection must get the reconnect notice, Shutdown must return after the drain (not at its context) and by its context otherwise; pools 0/1/4. A second Shutdown call overlapping the first, and pools without a queue between receive loops and workers, are part of the grid; every Shutdown call that returns before its context expires must return after the requests it had to wait for have finished (logical stamps).",
+        text="A real transport.TarsServer runs a monitor-owned protocol that stamps each request when the framing layer has read it, blocks every handler on a gate and marks one-way requests; raw clients pipeline requests over 1..32 connections so that running, pool-queued and framed-not-started requests exist at the Shutdown call by construction; gate scripts (at once after 0 / 1.3 s, one by one, after the close notice, some never) and clients reset while their requests execute. Every request read before the Shutdown call whose gate opened must be answered exactly once before EOF (one-way: executed, not answered), every live connection must get the reconnect notice, Shutdown must return after the drain (not at its context) and by its context otherwise; pools 0/1/4. A second Shutdown call overlapping the first, and pools without a queue between receive loops and workers, are part of the grid; every Shutdown call that returns before its context expires must return after the requests it had to wait for have finished (logical stamps). Connections idle for a while next to a busy one, handlers finishing more than 3 s after the notice, and a client that has stopped reading while owed a large response (Shutdown must still return with its context) are part of the grid.",
         note="Timing comes from the server's own pollers (500 ms tickers, 2 s idle rule); verdicts on the return time use the context deadline and a 2 s slack. With never-opened gates only requests that started are judged.",
         design="DESIGN.md §4 C12"),
     "C08": dict(
@@ -77,27 +77,27 @@ CHECKS = {
         design="DESIGN.md §4 C08"),
     "C09": dict(
         technique="runtime monitor: monotonic call-boundary timing with replay-confirmed overruns, hook probes of in-flight counters and pending-reply tables, token check on a control batch, against fault-script peers",
-        text="Real ServantProxy callers (1/8/64, two-way and one-way, tcp and ssl endpoints) run against peers that refuse, black-hole (full accept backlog), accept and stay silent, read and stay silent, reply after 0.5/0.9/1.0(+-400us)/1.1/3x the deadline, close or reset at every point, send four kinds of garbage or never read 1 MiB requests; deadlines come from the proxy timeout, the per-call client timeout and the context deadline. A call must return within deadline + dial bound + 2 s (an overrun only counts when three isolated replays exceed it too), the in-flight counter, pending-reply tables and manager counter must return to their previous values, and after the peer heals a 20-call control batch must succeed with its own tokens. Late-reply scenarios route every other caller through a second proxy for the same object; 24-caller scenarios behind an endpoint whose connection establishment hangs (TCP blackhole, TLS handshake never answered) and scenarios with a bound of 3 calls in flight (refused calls must not stay counted) were added.",
+        text="Real ServantProxy callers (1/8/64, two-way and one-way, tcp and ssl endpoints) run against peers that refuse, black-hole (full accept backlog), accept and stay silent, read and stay silent, reply after 0.5/0.9/1.0(+-400us)/1.1/3x the deadline, close or reset at every point, send four kinds of garbage or never read 1 MiB requests; deadlines come from the proxy timeout, the per-call client timeout and the context deadline. A call must return within deadline + dial bound + 2 s (an overrun only counts when three isolated replays exceed it too), the in-flight counter, pending-reply tables and manager counter must return to their previous values, and after the peer heals a 20-call control batch must succeed with its own tokens. Late-reply scenarios route every other caller through a second proxy for the same object; 24-caller scenarios behind an endpoint whose connection establishment hangs (TCP blackhole, TLS handshake never answered) and scenarios with a bound of 3 calls in flight (refused calls must not stay counted) were added. A goroutine-count comparison around 400 sequential calls (with and without a push callback) checks that returned calls leave no goroutine behind.",
         note="Inherently wall-clock; mitigated by the generous slack and replay confirmation. 'Never returns' is a bounded watchdog (bound + 30 s).",
         design="DESIGN.md §4 C09"),
     "C11": dict(
         technique="runtime monitor: connection ledger of a scripted server joined by token with call outcomes/latencies of a real ServantProxy; transport probe to order calls after the client registered the close",
-        text="A scripted server that answers everything it receives closes connections after a response, when idle, abortively, by restart on the same port, after the reconnect notice (also keeping the noticed connection open for a while), right after accept, and goes down while a call is attempted; after each close the monitor waits until the client registered it and issues 1 or 8 concurrent calls after delays on both sides of the sender goroutine's 1 s poll, over many cycles, followed by sequential follow-up calls. Each call must succeed with its own token within half its timeout, its request must arrive exactly once, never on a connection announced as closing, no call may hang, and no further connection may be opened while the current one is healthy. In down-call-up three calls are made while the server is away, single-caller scenarios of that kind with a bound of 4 calls in flight.",
+        text="A scripted server that answers everything it receives closes connections after a response, when idle, abortively, by restart on the same port, after the reconnect notice (also keeping the noticed connection open for a while), right after accept, and goes down while a call is attempted; after each close the monitor waits until the client registered it and issues 1 or 8 concurrent calls after delays on both sides of the sender goroutine's 1 s poll, over many cycles, followed by sequential follow-up calls. Each call must succeed with its own token within half its timeout, its request must arrive exactly once, never on a connection announced as closing, no call may hang, and no further connection may be opened while the current one is healthy. In down-call-up three calls are made while the server is away, single-caller scenarios of that kind with a bound of 4 calls in flight. After a reconnect notice the connection opened for the following calls must stay open and in use.",
         note="Calls racing with the close itself are outside the verdict. Interleavings of the client's sender/receiver goroutines are those that occur over the repeated cycles.",
         design="DESIGN.md §4 C11"),
     "C15": dict(
         technique="runtime monitor: trace assertions P1-P6 over token-joined logs of real calls against scripted per-endpoint servers behind a fake registrar, virtual time through hook-shifted health timestamps and hook-driven status checks",
-        text="A real communicator/endpoint manager/adapters resolve 2..4 endpoints (distinct loopback hosts) from a fake registrar; one scripted server per endpoint answers, stays silent or refuses per step; seeded scripts mix call batches (60 ms timeout), behaviour changes, virtual time advances and status checks, and end with a healing tail. Which server receives which token, the active list and the adapters' health records are observed; the assertions check: no removal without / with fewer than two failures, removal after >=5 consecutive failures over >=8 s while another endpoint is active, at most one probe per 27 s to a blocked endpoint, reinstatement iff the probe succeeded, calls still attempted when every endpoint is blocked, and return of every healed endpoint. A third of the call batches have 1-2 calls, every third script starts with a one-failure-then-check prologue, calls alternate between round-robin, mod-hash and consistent-hash routing, and failed calls nobody saw are attributed through the adapters' counters (all blocked and no registry endpoint tried = P6).",
+        text="A real communicator/endpoint manager/adapters resolve 2..4 endpoints (distinct loopback hosts) from a fake registrar; one scripted server per endpoint answers, stays silent or refuses per step; seeded scripts mix call batches (60 ms timeout), behaviour changes, virtual time advances and status checks, and end with a healing tail. Which server receives which token, the active list and the adapters' health records are observed; the assertions check: no removal without / with fewer than two failures, removal after >=5 consecutive failures over >=8 s while another endpoint is active, at most one probe per 27 s to a blocked endpoint, reinstatement iff the probe succeeded, calls still attempted when every endpoint is blocked, and return of every healed endpoint. A third of the call batches have 1-2 calls, every third script starts with a one-failure-then-check prologue, calls alternate between round-robin, mod-hash and consistent-hash routing, and failed calls nobody saw are attributed through the adapters' counters (all blocked and no registry endpoint tried = P6). Registry answers changing in non-identity fields, endpoints answering after the caller's timeout, a probe-window prologue (one probe per 30 s also when status checks pile up while nobody calls) and, in a child process, concurrent callers with every endpoint blocked (hook VerifSelect) are part of the scripts.",
         note="Virtual time shifts lastSuccessTime/lastBlockTime/lastCheckTime (all health comparisons have the form now - stamp >= K) and adds the real seconds elapsed; 3 s margins around the thresholds. The automatic ticker is set to 1 h through the first application's client configuration.",
         design="DESIGN.md §4 C15"),
     "C01": dict(
         technique="runtime monitor: token-joined event log across generated proxy, frame tap, real server stack and recording servant; reflection-driven calls with model-value equality oracles",
-        text="Per filter configuration a fresh isolated application runs the real stack (generated proxy -> ServantProxy -> transport client -> frame-parsing, re-chunking tap -> TarsServer -> tars.Protocol -> generated dispatcher -> recording servant) for an interface compiled at check time by the tree's own tars2go (12 functions over every type category, out-before-in, void, many outs). 1/4/32 callers share one proxy; each call draws function, argument values, request context/status maps, a directive for the servant (values, response context/status, tars.Error or plain error) and the proxy form (plain, WithContext, OneWay). Joined by token: executed exactly once, arguments/context/status received == sent, returned values/maps == directive, error code/message == directive, one-way never answered on the wire, pass-through filters seen once in registration order per side and properly nested. Added configurations: the servant registered through the context-less interface (separate dispatcher call emitters), and filters registered after the application's first calls (they must see the calls that follow). Every third call decodes its out parameters into variables the caller has used before (non-empty maps, vectors and byte vectors, set scalars, filled structs).",
+        text="Per filter configuration a fresh isolated application runs the real stack (generated proxy -> ServantProxy -> transport client -> frame-parsing, re-chunking tap -> TarsServer -> tars.Protocol -> generated dispatcher -> recording servant) for an interface compiled at check time by the tree's own tars2go (12 functions over every type category, out-before-in, void, many outs). 1/4/32 callers share one proxy; each call draws function, argument values, request context/status maps, a directive for the servant (values, response context/status, tars.Error or plain error) and the proxy form (plain, WithContext, OneWay). Joined by token: executed exactly once, arguments/context/status received == sent, returned values/maps == directive, error code/message == directive, one-way never answered on the wire, pass-through filters seen once in registration order per side and properly nested. Added configurations: the servant registered through the context-less interface (separate dispatcher call emitters), and filters registered after the application's first calls (they must see the calls that follow). Every third call decodes its out parameters into variables the caller has used before (non-empty maps, vectors and byte vectors, set scalars, filled structs). Implementation errors with an empty message are part of the directives (the code must survive).",
         note="The IDL is one hand-written interface (plus the generated-IDL corpus of C16). UDP/TLS transports are outside the statement. Error code 0 / empty messages excluded by design.",
         design="DESIGN.md §4 C01"),
     "C10": dict(
         technique="runtime monitor: raw scripted clients (requests built with the reference codec) against the real server stack with a gate-controlled recording servant; per-request join of responses, identity, codes and execution counts",
-        text="The real tars.Protocol + generated dispatcher + recording servant run on real TarsServers (tcp/udp x pool 0/1/4 x handle timeout 0/250 ms). Raw clients pipeline requests over 1/3/10 connections: versions TARS/TUP/JSON, two-way/one-way, success with result values, tars.Error, plain error, tars_ping, unknown function, ids incl. negative/1/MaxInt32, request timeouts. Queue timeout and handle timeout are produced with gates, not sleeps. Per request: number of responses after a quiescence poll (1 / 0 for one-way, never 2), echoed id/version/packet type, TUP reply layout, return code and message, decoded result values per version, and how often the implementation ran (0 for ping, unknown function and queue timeout). Every fourth request calls a void function without parameters; on every other TCP connection the pipelined stream is written in chunks ending 1-3 bytes into the next length prefix. UDP bursts are paced and an unanswered UDP request is judged only while the kernel reports no dropped datagrams for either socket.",
+        text="The real tars.Protocol + generated dispatcher + recording servant run on real TarsServers (tcp/udp x pool 0/1/4 x handle timeout 0/250 ms). Raw clients pipeline requests over 1/3/10 connections: versions TARS/TUP/JSON, two-way/one-way, success with result values, tars.Error, plain error, tars_ping, unknown function, ids incl. negative/1/MaxInt32, request timeouts. Queue timeout and handle timeout are produced with gates, not sleeps. Per request: number of responses after a quiescence poll (1 / 0 for one-way, never 2), echoed id/version/packet type, TUP reply layout, return code and message, decoded result values per version, and how often the implementation ran (0 for ping, unknown function and queue timeout). Every fourth request calls a void function without parameters; on every other TCP connection the pipelined stream is written in chunks ending 1-3 bytes into the next length prefix. UDP bursts are paced and an unanswered UDP request is judged only while the kernel reports no dropped datagrams for either socket. The queue-timeout case is also run with the handle timeout configured.",
         note="Arguments are those of one function (outFirst) encoded per version; other functions' codecs are covered by C01/C03. The TUP reply layout carries no return code, so codes are judged for TARS and JSON.",
         design="DESIGN.md §4 C10"),
     "C16": dict(
